@@ -100,6 +100,18 @@ def run(seed, tier, replay=None):
                 rep.violate(what=f"{name} of an empty array is not empty", input=inp, call=f"QuadraticDistribution.{name}")
         if not (np.isscalar(mean) and np.isscalar(var)):
             rep.violate(what="mean/variance attributes are not scalars", input=inp)
+        if ci % 5 == 0:
+            for name, fn, xs in (("cdf", d.cdf, ys), ("pdf", d.pdf, ys), ("ppf", d.ppf, qs)):
+                with warnings.catch_warnings():
+                    warnings.simplefilter("ignore")
+                    try:
+                        fails = C.shape_probe(fn, xs[2:])       # from index 2: inside/at the support, not only the infinities
+                    except Exception as e:  # noqa: BLE001
+                        fails = [("?", "raised " + repr(e))]
+                rep.case(("shapes", name, inp["a"], inp["b"], c, convex), nontrivial=False)
+                for sh, msg in fails[:1]:
+                    rep.violate(what=f"{name}: {msg} (scalars must map to scalars, arrays to arrays of the same shape)", input=dict(inp, xs=hx(xs[2:8])),
+                                shape=list(sh) if sh != "?" else None, call=f"QuadraticDistribution.{name}")
 
         # ---------------- model vs implementation (Float reading of the polymorphic term)
         for kind, xs, impl in (("cdf", ys, cdf), ("pdf", ys, pdf), ("ppf", qs, ppf), ("moments", None, [mean, var])):
